@@ -354,6 +354,10 @@ def _build_patches():
         (molli._aux.lock, "Path", K.SimPath),
     ] + [(m_, "open", K.sim_open) for m_ in storage_mods] + [(m_, "io", io_proxy) for m_ in storage_mods if "io" in vars(m_)] + [(m_, "mmap", mmap_proxy) for m_ in storage_mods if "mmap" in vars(m_)] + [
         (molli.storage.backends, "InterProcessReaderWriterLock", SimRWLock),
+        # ... and wherever else the code under test may construct a fasteners lock (a helper class in molli._aux.lock, say):
+        # the default `sleep_func=time.sleep` is bound when fasteners is imported, so the DEFAULT itself is exchanged
+        (RealRW.__init__, "__defaults__", (_sim_sleep, None)),
+        (fasteners.InterProcessLock.__init__, "__defaults__", (_sim_sleep, None)),
         (molli.storage.backends, "atexit", SimAtexit),
         (fasteners.process_lock, "_interprocess_reader_writer_mechanism", SimLockMech),
         (fasteners._utils, "time", SimTime),
@@ -452,7 +456,9 @@ def storage_seams(kernel: K.Kernel):
         _PATCHES = _build_patches()
     saved = []
     for mod, name, val in _PATCHES:
-        saved.append((mod, name, mod.__dict__.get(name, _MISSING)))
+        import types as _types
+
+        saved.append((mod, name, mod.__dict__.get(name, _MISSING) if isinstance(mod, _types.ModuleType) else getattr(mod, name, _MISSING)))
         setattr(mod, name, val)
     K.install(kernel)
     reset_process_state(kernel)
